@@ -665,6 +665,21 @@ def r8(prog, ev, rep):
                     if not ok:
                         why = "`not = true` is not guarded by Rule::not_op"
         if not ok and why.startswith("arm is"):
+            # the negation scan lives in a helper that returns (operand, not): read the flag out of the pair
+            nt = _flag_from_pair(ev, b, ctor)
+            if nt is not None:
+                alts_ = {str(x) for x in (nt.a if nt.k == "phi" else (nt,))}
+                ok = ("false" in alts_ and "true" in alts_ and len([a for a in alts_ if not a.startswith("loopvar")]) == 2)
+                if not ok:
+                    why = "`not` is %s: it must be false unless a not_op child is present" % sorted(alts_)[:6]
+                else:
+                    helpers = sorted({x.a[0] for x in subterms(ev.summary(fa)) if x.k == "call" and x.a[0] in prog.bodies
+                                      and x.a[0].startswith("crate::parser::") and not x.a[0].startswith(M)
+                                      and any(y.get("k") == "Assign" for y in T.walk(prog.bodies[x.a[0]]["thir"]["root"]))})
+                    ok = all(_true_only_under_not_op(prog, h) for h in helpers) and bool(helpers)
+                    if not ok:
+                        why = "`not = true` is not guarded by Rule::not_op in %s" % [h.rsplit("::", 1)[1] for h in helpers]
+        if not ok and why.startswith("arm is"):
             # no closure/constructor call of the expected form was found at all: the arm could not be read (a wrong `not`
             # that *was* read is reported as a violation above)
             rep.unrecognised("C05-R8", key, where, "how the arm builds FilterAtom::%s(expr, not) could not be read: %s" % (ctor, why[:300]))
@@ -685,6 +700,104 @@ def r8(prog, ev, rep):
         good = ct.k == "adt" and ct.a[1] == variant and dict(ct.a[2]).get("not") == Tm("param", (1, "not")) \
             and dict(ct.a[2]).get("expr") is not None and dict(ct.a[2])["expr"].k == "param" and dict(ct.a[2])["expr"].a[0] == 0
         rep.check(good, "C05-R8", "FilterAtom::%s" % ctor, prog.loc_of(p), "%s{expr, not}" % variant, "constructor builds `%s`" % ct)
+
+
+def _pair_component(ev, t, i, depth=0):
+    """component i of a pair-valued term, through `?`, ok_or, Option/Result::map and conditionals; None if unreadable"""
+    if depth > 10 or not isinstance(t, Tm):
+        return None
+    if t.k == "tuple" and i < len(t.a):
+        return t.a[i]
+    if t.k == "try":
+        return _pair_component(ev, t.a[0], i, depth + 1)
+    if t.k == "adt" and t.a[1] in ("Ok", "Some") and len(t.a[2]) == 1:
+        return _pair_component(ev, t.a[2][0][1], i, depth + 1)
+    if t.k == "proj" and str(t.a[1]).split(".")[0] in ("Option::Some", "Result::Ok"):
+        return _pair_component(ev, t.a[0], i, depth + 1)
+    if t.k == "call" and len(t.a) >= 2:
+        m = t.a[0].rsplit("::", 1)[-1]
+        if m in ("ok_or", "ok_or_else") and t.a[0].startswith("core::option::Option"):
+            return _pair_component(ev, t.a[1], i, depth + 1)
+        if m == "map" and len(t.a) == 3 and t.a[2].k in ("closure", "fnitem") and (t.a[0].startswith("core::option::Option") or t.a[0].startswith("core::result::Result")):
+            seg = "Option::Some.0" if t.a[0].startswith("core::option") else "Result::Ok.0"
+            return _pair_component(ev, ev.apply(t.a[2], [Tm("proj", (t.a[1], seg))]), i, depth + 1)
+    if t.k == "call" and t.a[0] in ev.prog.bodies and ev.prog.items.get(t.a[0], {}).get("kind") in ("Fn", "AssocFn") and depth < 4:
+        inner = ev.apply(Tm("fnitem", (t.a[0],)), list(t.a[1:]))
+        if inner is not None and not (inner.k == "call" and inner.a[0] == t.a[0]):
+            return _pair_component(ev, inner, i, depth + 1)
+    if t.k == "match":
+        outs = [_pair_component(ev, b, i, depth + 1) for _, _, b in t.a[1] if not (b.k == "adt" and b.a[1] in ("None", "Err"))]
+        outs = [o for o in outs if o is not None]
+        return outs[0] if len(outs) == 1 else None
+    return None
+
+
+def _flag_from_pair(ev, b, ctor):
+    """the `not` argument of FilterAtom::<ctor> when operand and flag come out of one pair-valued helper call"""
+    want = M + "FilterAtom::" + ctor
+    for x in subterms(b):
+        if x.k == "call" and x.a[0] == want and len(x.a) == 3:
+            e_, n_ = x.a[1], x.a[2]
+            if e_.k == "field" and n_.k == "field" and e_.a[0] == n_.a[0] and str(e_.a[1]) == "0" and str(n_.a[1]) == "1":
+                return _pair_component(ev, n_.a[0], 1)
+    # `pair.map(|(expr, not)| FilterAtom::ctor(expr, not))`
+    for x in subterms(b):
+        if x.k == "call" and len(x.a) == 3 and x.a[2].k == "closure" and x.a[0].rsplit("::", 1)[-1] == "map":
+            p_ = Tm("param", (86, "pair"))
+            body = ev.apply(x.a[2], [p_])
+            if body.k == "call" and body.a[0] == want and len(body.a) == 3 and body.a[1] == Tm("field", (p_, "0")) and body.a[2] == Tm("field", (p_, "1")):
+                return _pair_component(ev, x.a[1], 1)
+    return None
+
+
+def _true_only_under_not_op(prog, fn):
+    """every assignment of the literal `true` in fn sits under a test of the child's kind against Rule::not_op (a match arm
+    with that pattern, or `kind == Rule::not_op`)"""
+    def is_not_op(e):
+        e = T.peel(e)
+        return e.get("k") == "Adt" and e.get("variant") == "not_op"
+
+    def guard_ok(cond):
+        c = T.peel(cond)
+        if c.get("k") == "Binary" and c.get("op") in ("Eq", "eq"):
+            return is_not_op(c["l"]) or is_not_op(c["r"])
+        if c.get("k") == "Call" and (c.get("fn") or "").endswith("::eq") and len(c.get("args") or []) == 2:
+            return any(is_not_op(a) for a in c["args"])          # derived PartialEq of the Rule enum
+        if c.get("k") == "Call" and (c.get("fn") or "").endswith("matches") is False:
+            return False
+        return False
+    found = [False]
+    okall = [True]
+
+    def walk(e, guarded):
+        if not isinstance(e, dict):
+            return
+        k = e.get("k")
+        if k == "Assign":
+            r = T.peel(e["r"])
+            if r.get("k") == "Lit" and str(r.get("value", r.get("v", ""))).lower() in ("true",):
+                found[0] = True
+                if not guarded:
+                    okall[0] = False
+        if k == "Match":
+            walk(e["scrut"], guarded)
+            for a in e["arms"]:
+                pat = a["pat"]
+                while pat.get("k") in ("Deref", "DerefPattern"):
+                    pat = pat["sub"]
+                g = guarded or (pat.get("k") == "Variant" and pat.get("variant") == "not_op")
+                walk(a["body"], g)
+            return
+        if k == "If":
+            walk(e["cond"], guarded)
+            walk(e["then"], guarded or guard_ok(e["cond"]))
+            if "else" in e:
+                walk(e["else"], guarded)
+            return
+        for c in T.children(e):
+            walk(c, guarded)
+    walk(prog.bodies[fn]["thir"]["root"], False)
+    return found[0] and okall[0]
 
 
 def _not_set_under_not_op(prog, fa, rule):
